@@ -53,7 +53,7 @@ m = {
    {"name": "runtime", "path": "/verif/runtime", "serves_properties": sorted(CLAIMS), "kind_free_text": "concrete back end: bounded stand-ins / replay / non-vacuity witnesses on the real code under /venv/bin/python"},
  ],
  "checks": checks,
- "notes": "exit 0 held / 1 VIOLATION / 2 undecided / 3 checker error. Known findings: /verif/known_findings.jsonl.",
+ "notes": "exit 0 held / 1 VIOLATION / 2 undecided / 3 checker error. Known findings: /verif/known_findings.txt.",
  "not_applicable": [{"property_id": p["id"], "reason": NA_REASON} for p in props if p["id"] not in CLAIMS],
 }
 json.dump(m, open("MANIFEST.json", "w"), indent=1)
